@@ -557,7 +557,10 @@ class Node:
 
             conn = PeerConnection(peer.ip_addresses, peer.port,
                                   PEER_SEND, self.interrupt_write)
-            conn.state = PEER_CONNECTING
+            # the connection stays in its initial CLOSED state until connect
+            # has been called: the connection thread, which may not be this
+            # thread, does not select on the socket of a closed connection
+            # (an unconnected socket polls as readable and writable)
             conn.node_name = peer.node_name
             conn.origin_host = self.origin_host
             self._add_peer_connection(conn, peer_socket, PEER_TRANSPORT_TCP)
@@ -574,8 +577,10 @@ class Node:
                     peer.disconnect_reason = DISCONNECT_REASON_SOCKET_FAIL
                     conn.close()
                     return
+                conn.state = PEER_CONNECTING
                 self.logger.warning(f"{conn} socket not yet ready, waiting")
             else:
+                conn.state = PEER_CONNECTING
                 connected = self._flag_peer_as_connected(conn)
                 self.logger.info(f"{conn} socket is now connected")
 
@@ -587,7 +592,6 @@ class Node:
 
             conn = PeerConnection(peer.ip_addresses, peer.port,
                                   PEER_SEND, self.interrupt_write)
-            conn.state = PEER_CONNECTING
             conn.node_name = peer.node_name
             conn.origin_host = self.origin_host
             self._add_peer_connection(conn, peer_socket, PEER_TRANSPORT_SCTP)
@@ -605,8 +609,10 @@ class Node:
                     peer.disconnect_reason = DISCONNECT_REASON_SOCKET_FAIL
                     conn.close()
                     return
+                conn.state = PEER_CONNECTING
                 self.logger.warning(f"{conn} socket not yet ready, waiting")
             else:
+                conn.state = PEER_CONNECTING
                 connected = self._flag_peer_as_connected(conn)
                 self.logger.info(f"{conn} socket is now connected")
 
